@@ -21,7 +21,7 @@ REAL = common.REAL_DECODER
 ASSUMPTIONS = ["reference model + pinned layout snapshot define region accounting (DESIGN.md 4.2)",
                "where the statement leaves a choice (several regions crossed at once, input ending inside the skip, "
                "trailing structure events) every admissible report is accepted"]
-TIERS = {"quick": {"runs": 40000, "budget": 150}, "thorough": {"runs": 900000, "budget": 780}}
+TIERS = {"quick": {"runs": 56000, "budget": 150}, "thorough": {"runs": 900000, "budget": 780}}
 DOMAIN = oracle.SIZE_KINDS
 
 
@@ -58,7 +58,7 @@ def make_case(i, rng, tier):
             fc = (inp, f2[0], f2[1]) if f2 else None
         if fc:
             return common.mk_case(rng, fc[0], fc[1], fc[2])
-    if rng.random() < 0.04:
+    if rng.random() < 0.06:
         fc = common.uniform_assumption_fault(rng, inp, o)
         if fc:
             return common.mk_case(rng, fc[0], fc[1], fc[2])
